@@ -85,7 +85,7 @@ def gen_dcf(rng):
 def gen_cart(rng):
     nz = rng.choice([1, 1, 2, 3])
     ny, nx = rng.randint(2, 5), rng.randint(2, 5)
-    style = rng.choice(['full', 'shuffled', 'undersampled', 'duplicates', 'outside', 'dense'])
+    style = rng.choice(['full', 'shuffled', 'undersampled', 'duplicates', 'outside', 'dense', 'shifted'])
 
     def axis_samples(n, style):
         full = [i - n // 2 for i in range(n)]
@@ -107,6 +107,10 @@ def gen_cart(rng):
             s = full + [rng.choice([-n // 2 - 1, n - n // 2, n])]
             rng.shuffle(s)
             return s
+        if style == 'shifted':
+            # the full ascending range moved by one or two samples: still sorted and of full size, partly outside
+            d = rng.choice([-2, -1, 1, 2])
+            return [v + d for v in full]
         return full
     if style == 'dense':
         # a dense (non-broadcast) trajectory: arbitrary list of points, duplicates possible
@@ -115,11 +119,36 @@ def gen_cart(rng):
                for _ in range(k2 * k1 * k0)]
         return {'cls': 'CartesianSamplingOp', 'enc': [nz, ny, nx], 'style': style, 'tshape': [k2, k1, k0], 'points': pts,
                 'coils': rng.randint(1, 2), 'has_duplicates': len({tuple(p) for p in pts}) < len(pts)}
-    kz, ky, kx = axis_samples(nz, rng.choice(['full', style])), axis_samples(ny, style), axis_samples(nx, rng.choice(['full', style]))
+    if style == 'shifted':
+        ax = rng.choice([0, 1, 2] if nz > 1 else [1, 2])
+        kz, ky, kx = (axis_samples(n, 'shifted' if i == ax else 'full') for i, n in enumerate((nz, ny, nx)))
+    else:
+        kz, ky, kx = axis_samples(nz, rng.choice(['full', style])), axis_samples(ny, style), axis_samples(nx, rng.choice(['full', style]))
     pts = [[a, b, c] for a in kz for b in ky for c in kx]
     return {'cls': 'CartesianSamplingOp', 'enc': [nz, ny, nx], 'style': style, 'tshape': [len(kz), len(ky), len(kx)],
             'kz': kz, 'ky': ky, 'kx': kx, 'points': pts, 'coils': rng.randint(1, 2),
             'has_duplicates': len({tuple(p) for p in pts}) < len(pts)}
+
+
+def fixed_cart_cases():
+    """deterministic corner cases of CartesianSamplingOp that every run exercises"""
+    out = []
+
+    def mk(enc, kz, ky, kx, style):
+        pts = [[a, b, c] for a in kz for b in ky for c in kx]
+        return {'cls': 'CartesianSamplingOp', 'enc': list(enc), 'style': style, 'tshape': [len(kz), len(ky), len(kx)], 'kz': kz, 'ky': ky, 'kx': kx,
+                'points': pts, 'coils': 1, 'has_duplicates': len({tuple(p) for p in pts}) < len(pts)}
+    full = lambda n: [i - n // 2 for i in range(n)]  # noqa: E731
+    # full-size ascending range shifted along the slowest axis (still sorted, partly outside the encoding matrix)
+    out.append(mk((3, 2, 2), [v + 1 for v in full(3)], full(2), full(2), 'shifted'))
+    out.append(mk((1, 4, 3), [0], [v + 1 for v in full(4)], full(3), 'shifted'))
+    out.append(mk((1, 3, 4), [0], [v - 1 for v in full(3)], full(4), 'shifted'))
+    out.append(mk((1, 2, 4), [0], full(2), [v + 2 for v in full(4)], 'shifted'))
+    # a phase-encoding line acquired twice
+    out.append(mk((1, 3, 2), [0], [-1, 0, 0, 1], full(2), 'duplicates'))
+    # descending order
+    out.append(mk((1, 3, 3), [0], full(3)[::-1], full(3), 'shuffled'))
+    return out
 
 
 def gen_findiff(rng):
